@@ -216,6 +216,10 @@ def assemble(prefix, dtype, res):
             v = v.astype(np.str_)
         return v
     fields = {f: assemble(f"{prefix}_{f}", ft, res) for f, ft in dtype._fields().items()}
+    shapes = {f: tuple(np.shape(v)) for f, v in fields.items()}
+    if len(set(shapes.values())) > 1:
+        # numpy would silently broadcast a size-1 mask: the fields of one array must have one shape
+        raise ValueError(f"FIELD-SHAPES: the fields of output {prefix!r} have different run-time shapes {shapes}")
     return dtype._assemble_output(fields)
 
 
